@@ -22,7 +22,7 @@ theorem stepFrame_inv_script (c : Cfg) (w : World) (ops : List Op) (self wc : Op
     Inv (stepFrame c { w with stack := rest } (.script ops self wc top)) := by
   have h0 := hi.pop hs rfl
   obtain ⟨hp, hids⟩ := hc.pop hs
-  have hp' : CountsH { w with stack := rest } [] := by cases self <;> exact hp
+  have hp' : CountsH false { w with stack := rest } [] := by cases self <;> exact hp
   have hself : ∀ s, self = some s → s < w.next := by
     intro s hs; subst hs; exact hids s (by simp [Frame.ids])
   cases ops with
@@ -30,7 +30,7 @@ theorem stepFrame_inv_script (c : Cfg) (w : World) (ops : List Op) (self wc : Op
   | cons op ops =>
     simp only [stepFrame]
     have hc1 := (CountsH.pushFrame (E := []) (.script ops self wc top) (by cases self <;> simpa [Frame.holds] using hp')
-      (by cases self <;> simpa [Frame.ids] using hself)).toCounts
+      (by cases self <;> simpa [Frame.ids] using hself)).toCounts0
     have hf1 : FlagsOk (({ w with stack := rest } : World).push (.script ops self wc top)) := flagsOk_push_script hf hs
     have hi1 : Inv (({ w with stack := rest } : World).push (.script ops self wc top)) :=
       h0.step (WOI.same h0.oi rfl rfl) [.script ops self wc top] (by plain_tac) rfl
@@ -120,10 +120,10 @@ theorem reachable_all (c : Cfg) (nH nW nK : Nat) (w : World) (h : Reachable c nH
       step_flagsOk c w ih.flags, step_inv c w ih.counts ih.flags ih.inv ih.fresh, step_fresh c w ih.fresh⟩
   | top w op hr hs hm ih =>
     refine ⟨?_, ?_, ?_, ?_⟩
-    · have h0 : CountsH w [] := ih.counts.toH
-      have h1 : CountsH { w with stack := [], events := [], ret := .ok } [] := by
+    · have h0 : CountsH false w [] := ih.counts.toH
+      have h1 : CountsH false { w with stack := [], events := [], ret := .ok } [] := by
         refine CountsH.congr h0 ?_ ?_ ?_ ?_ ?_ ?_ ?_ <;> first | rfl | exact hs.symm
-      exact ((h1.pushPlain .catchTop rfl rfl).pushPlain (.script [op] none none true) rfl rfl).toCounts
+      exact ((h1.pushPlain .catchTop rfl rfl).pushPlain (.script [op] none none true) rfl rfl).toCounts0
     · have := ih.flags
       rw [flagsOk_iff] at *
       simp_all [expected, Frame.flags]
